@@ -720,3 +720,16 @@ def loop_body_of(func_loop_src: str) -> Callable[[ast.FunctionDef], List[ast.stm
         raise Unsupported(f"loop `{func_loop_src}` not found in {fdef.name}")
 
     return slicer
+
+
+def while_test_of() -> Callable[[ast.FunctionDef], List[ast.stmt]]:
+    """slicer: `return <test>` for the test of the first `while` statement of the function"""
+
+    def slicer(fdef: ast.FunctionDef) -> List[ast.stmt]:
+        for node in ast.walk(fdef):
+            if isinstance(node, ast.While):
+                r = ast.Return(value=node.test)
+                return [ast.copy_location(r, node)]
+        raise Unsupported(f"no while loop in {fdef.name}")
+
+    return slicer
